@@ -113,3 +113,10 @@ const (
 	maximumTTL = 12 * time.Hour
 	defaultCap = 1024 * 256
 )
+
+// MaximumLease is the longest a delegation is kept however long the TTLs
+// the parent granted: the ceiling SetUntil applies. It is exported so the
+// resolver bounds everything it derives from a delegation — the cut
+// deadline that answers learned through it inherit — by the same ceiling,
+// instead of the uncapped referral TTL.
+const MaximumLease = maximumTTL
